@@ -158,6 +158,10 @@ func symEquals(i *interpreter, t types.Type, x, y value) value {
 		if x.t == nil {
 			return true
 		}
+		if xr, ok := x.v.(rtype); ok {
+			yr, ok := yv.v.(rtype)
+			return ok && types.Identical(xr.t, yr.t)
+		}
 		if !types.Comparable(x.t) {
 			panic(targetRuntimeError("comparing uncomparable type " + x.t.String()))
 		}
